@@ -7,6 +7,8 @@
   pairs:        k:v,k:v (sorted by key), '-' = none
     data <recvhex> <sr 0|1> <alerts ;-joined>         -> <dump>
     webhook <max> <recvhex> <alerts>                  -> trunc=<n> <dump>
+    webhookp <recvhex> <alerts>                       -> trunc=0 <dump>     the case's ONE webhook notifier with a custom `payload` (a list of
+                                                         templates); the dump is rebuilt from the rendered payload of this notification
   dump: recv=<hex> status=<s> alerts=<status|labels|annots;…> cl=<pairs> ca=<pairs> nf=<n> nr=<n>
 -/
 import Driver.Util
@@ -50,7 +52,7 @@ def dump (d : Data) : List String :=
    s!"nf={(firing d).length}", s!"nr={(resolvedItems d).length}"]
 
 structure St where
-  dummy : Nat := 0
+  dummy : Nat := 0     -- notifications sent so far through the case's custom-payload notifier
 
 /-- spec predicates on the implementation's own dump, against the batch that was sent -/
 def specs (sent : List Alert) (obs : List String) : List Msg :=
@@ -104,6 +106,17 @@ def step (σ : St) (op obs : List String) : St × List Msg :=
     let d := data 0 (quoteMeta (unhexStr recv)) snt
     (σ, expectEq "data" (" ".intercalate (dump d)) (" ".intercalate obs) ++ specs snt obs ++ tagsOf snt d
           ++ (if sr = "0" ∧ snt.length < alerts.length then [.tag "send_resolved:dropped"] else []) ++ flagTags as)
+  | ["webhookp", recv, as] =>
+    -- a custom payload is rendered on the data of this very notification (same statements as for the default payload:
+    -- data_lists_exactly_batch, status_firing_iff_any, common_is_intersection against the batch that was sent),
+    -- however many notifications the integration sent before
+    let alerts := parseAlerts as
+    let d := data 0 (quoteMeta (unhexStr recv)) alerts
+    let shape : List Msg := if (kv obs "alerts").isSome then [] else
+      [Msg.propfail "data_lists_exactly_batch" "custom-payload-unreadable" s!"{" ".intercalate obs}"]
+    ({ σ with dummy := σ.dummy + 1 }, expectEq "webhookp" (" ".intercalate ("trunc=0" :: dump d)) (" ".intercalate obs)
+          ++ shape ++ (if shape.isEmpty then specs alerts obs else []) ++ tagsOf alerts d
+          ++ [.tag (if σ.dummy = 0 then "webhook:custom-payload-first" else "webhook:custom-payload-again")] ++ flagTags as)
   | ["webhook", mx, recv, as] =>
     let alerts := parseAlerts as
     let (listed, cut) := AM.Trunc.truncAlerts (toNat! mx) alerts
